@@ -105,7 +105,7 @@ static rtosc_print_options popts(const Opts &o) { rtosc_print_options p; p.lossl
 // count + scan a text (argument values or a whole message); logs count, consumed, expansion; returns cells
 static void scan_text(JW &w, const char *text, size_t tlen, bool msg, std::vector<rtosc_arg_val_t> &cells, std::vector<char> &strbuf, const char *key_prefix) {
     std::string kp = key_prefix;
-    size_t lead = 0; if (!msg) while (lead < tlen && isspace((unsigned char)text[lead])) ++lead;
+    size_t lead = 0; (void)tlen;      // the text goes to checker and scanner as it is: blanks and comments in front of the first value are theirs to skip
     int cnt = msg ? rtosc_count_printed_arg_vals_of_msg(text) : rtosc_count_printed_arg_vals(text + lead);
     w.knum((kp + "count").c_str(), cnt).knum((kp + "lead").c_str(), (long long)lead);
     cells.clear();
@@ -196,8 +196,11 @@ struct RGen { std::mt19937_64 rng; uint64_t R(uint64_t n) { return rng() % n; }
                 if (wide) { // strides and starting points over the whole width of the type (no overflow along the run)
                     static const long long hd[] = {1ll << 31, (1ll << 32) + 3, -((1ll << 32) + 1), 1ll << 33, 1ll << 59, -(1ll << 31), 0x7fffffffll, 0x100000000ll};
                     static const long long id[] = {65536, 1 << 24, -(1 << 27), 100000, -1, 1 << 20};
-                    if (t == 'h') { start = (long long)(R(1ull << 61)) - (1ll << 60); delta = R(3) ? hd[R(8)] : (long long)R(1ull << 40) - (1ll << 39); }
-                    else if (t == 'i') { start = (long long)R(1u << 30) - (1 << 29); delta = id[R(6)]; }
+                    if (t == 'h') { start = (long long)(R(1ull << 61)) - (1ll << 60); delta = R(3) ? hd[R(8)] : (long long)R(1ull << 40) - (1ll << 39);
+                                    if (R(4) == 0) { start = -8000000000000000000ll; delta = 4000000000000000000ll; L = 5; } }          // every value fits, "last - first" does not
+                    else if (t == 'i') { start = (long long)R(1u << 30) - (1 << 29); delta = id[R(6)];
+                                         if (R(4) == 0) { start = -2000000000ll; delta = 1000000000ll; L = 5; }                         // every value fits, "last - first" does not
+                                         else if (R(4) == 0) { start = 2147483645ll; delta = 1; L = 5; } }                                 // ... 2147483647 -2147483648 ...: a run only modulo 2^32
                     else if (t == 'c') { start = 40 + (long long)R(40); delta = (long long)R(4); }
                     else { start = (long long)R(1 << 20) - (1 << 19); delta = (long long)R(1 << 16) - (1 << 15); } }
                 for (unsigned i = 0; i < L; ++i) { long long v = start + (long long)i * delta; w.obj().kstr("t", std::string(1, t)).key("v");
